@@ -242,8 +242,33 @@ func runC16(t *rapid.T) {
 				env.factory.setHooks(nil, nil)
 				t.Skip("inconclusive: commit gate not reached")
 			}
-			w, err := env.db.GetSequenceUpdates(prefix)
-			close(release)
+			// The subscription is attempted while the write is parked. An implementation may make it wait for the
+			// commit (then it returns only after the gate is released) or let it through: both are fine as long as
+			// the subscriber ends up with the latest key.
+			type subRes struct {
+				w   kv.SequenceWaiter
+				err error
+			}
+			subCh := make(chan subRes, 1)
+			go func() {
+				w, err := env.db.GetSequenceUpdates(prefix)
+				subCh <- subRes{w, err}
+			}()
+			var sr subRes
+			select {
+			case sr = <-subCh:
+				close(release)
+			case <-time.After(8 * time.Millisecond):
+				close(release)
+				select {
+				case sr = <-subCh:
+				case <-time.After(10 * time.Second):
+					<-done
+					env.factory.setHooks(nil, nil)
+					t.Fatalf("C16: GetSequenceUpdates(%q) did not return within 10 s after the concurrent write completed; history=%v", prefix, hist)
+				}
+			}
+			w, err := sr.w, sr.err
 			<-done
 			env.factory.setHooks(nil, nil)
 			if err != nil {
